@@ -140,7 +140,9 @@ class Server:
         src = src.replace("/opt/dbs/runtimeconfig/overrides.yml", self.dir + "/overrides.yml")
         src = src.replace("[http]\n", "[http]\n  auth-enabled = true\n  shared-secret = \"%s\"\n  pprof-enabled = %s\n"
                                       "  flux-enabled = false\n" % (SECRET, "true" if pprof else "false"))
-        src = src.replace("flight-enabled = true", "flight-enabled = false")
+        if product != "logkeeper":
+            # (the log-store record writes go through the RecordWriter that only exists with the flight service on)
+            src = src.replace("flight-enabled = true", "flight-enabled = false")
         src = src.replace("store-enabled = true", "store-enabled = false").replace('pushers = "http"', 'pushers = ""')
         if product:
             src = src.replace("[common]\n", "[common]\n  product-type = \"%s\"\n" % product)
@@ -151,8 +153,12 @@ class Server:
         self.log = open(os.path.join(self.dir, "server.log"), "w")
         env = dict(os.environ)
         env["HOME"] = self.dir  # keep default loggers away from /root/.openGemini
-        self.proc = subprocess.Popen([binp, "-config", os.path.join(self.dir, "conf.toml")], cwd=self.dir, env=env,
-                                     stdout=self.log, stderr=subprocess.STDOUT, start_new_session=True)
+        try:
+            self.proc = subprocess.Popen([binp, "-config", os.path.join(self.dir, "conf.toml")], cwd=self.dir, env=env,
+                                         stdout=self.log, stderr=subprocess.STDOUT, start_new_session=True)
+        except OSError:
+            release_port_block(self.claim)
+            raise
 
     def stop(self):
         if self.proc.poll() is None:
